@@ -12,7 +12,7 @@ use std::io::ErrorKind;
 pub static DEF: PropDef = PropDef {
     id: "C05",
     level: "exploration",
-    rule: "each case: one input (valid writer/reference output, truncated, 1-3 mutations, adversarial header catalogue entry — zero-length numerics, 9-byte numerics, 8-byte ids/sizes, all-ones sizes of every width on every element type, first byte 0x00 — random bytes, mid-document suffix) x a random configuration (8 tolerance subsets, buffered-master subset, capacity in {default,0,1,2,7,8,15,16,17,64,len-1,len,len+1}, size limit in {5,100,4096,1 MiB}, EOF closing on/off) x a scripted source (random short reads, poisoned buffer tails) x a random interleaving of next()/try_recover(). Every API call runs under catch_unwind with a logical step budget (hook H1) and a source read budget; item count must stay <= 2*len+2*depth+16; after the first None with the source exhausted 8 further calls must return None; total steps must stay within 256*(len+items+64). Then the same parse is repeated with an I/O error injected at a read index (every index for inputs <= 64 bytes in thorough): the first error seen must be ReadError carrying the injected kind and message, and the Ok items before it a prefix of the fault-free run. Four fixed probes per run parse, in a child process on a thread with a 256 KiB stack, very long runs (20 000 quick / 100 000 thorough) of sibling buffered masters (known and unknown size) and deep nestings (4 000 / 20 000 levels) of a self-nesting master (unbuffered, and inside a buffered root): input-controlled recursion shows up as a crash of the child. distinct = (input-kind class, first-error kind, config class, API-sequence class); non-trivial iff the input is not a plain valid document or the config is non-default.",
+    rule: "each case: one input (valid writer/reference output, truncated, 1-3 mutations, adversarial header catalogue entry — zero-length numerics, 9-byte numerics, 8-byte ids/sizes, all-ones sizes of every width on every element type, first byte 0x00 — random bytes, mid-document suffix) x a random configuration (8 tolerance subsets, buffered-master subset, capacity in {default,0,1,2,7,8,15,16,17,64,len-1,len,len+1}, size limit in {5,100,4096,1 MiB}, EOF closing on/off) x a scripted source (random short reads, poisoned buffer tails) x a random interleaving of next()/try_recover(). Every API call runs under catch_unwind with a logical step budget (hook H1) and a source read budget; item count must stay <= 2*len+2*depth+16; after the first None with the source exhausted 8 further calls must return None; total steps must stay within 256*(len+items+64). Then the same parse is repeated with an I/O error injected at a read index (every index for inputs <= 64 bytes in thorough): the first error seen must be ReadError carrying the injected kind and message, and the Ok items before it a prefix of the fault-free run. Four fixed probes per run parse, in a child process on a thread with a 256 KiB stack, very long runs (20 000 quick / 100 000 thorough) of sibling buffered masters (known and unknown size) and deep nestings (4 000 / 20 000 levels) of a self-nesting master (unbuffered, and inside a buffered root): input-controlled recursion shows up as a crash of the child. Thorough tier only: four runs of a small single-threaded workload (writer, iterator with short reads and try_recover, tools, async next() loop) under `cargo +nightly miri run` (tree borrows) as a supplementary undefined-behaviour check. distinct = (input-kind class, first-error kind, config class, API-sequence class); non-trivial iff the input is not a plain valid document or the config is non-default.",
     assumptions: &["the default 4 GB size limit is only used with valid documents (a legitimate multi-GB allocation per worker would exhaust the machine); C17 covers the default limit with curated sizes", "`no hang` is decided as bounded logical progress (hook H1 ticks + source read budget); a pure-CPU loop without a tick would only trip the wall-clock watchdog (inconclusive)"],
     cases_quick: 400_000,
     cases_thorough: 5_000_000,
@@ -120,9 +120,50 @@ fn run_long_probe(c: &mut Case, which: u64) {
     c.nontrivial(mix(hash_str("long-run"), which));
 }
 
+/// Supplementary sanitizer stage (thorough): the smoke workload under Miri (tree borrows). The repository has no
+/// `unsafe`, so a UB report can only implicate it if a frame of /repo/src performs the access; anything else (std,
+/// futures, the harness) is recorded but not alarmed. Unavailable toolchain => recorded, not a verdict.
+fn run_miri_stage(c: &mut Case, seed: u64) {
+    let hd = format!("{}/harness", std::env::var("VERIF_DIR").unwrap_or_else(|_| "/verif".into()));
+    let out = std::process::Command::new("cargo")
+        .args(["+nightly", "miri", "run", "--offline", "-q", "-p", "vmon", "--", "miri-smoke", "12", &seed.to_string()])
+        .current_dir(&hd)
+        .env("CARGO_TARGET_DIR", format!("{}/target/miri", hd))
+        .env("MIRIFLAGS", "-Zmiri-disable-isolation -Zmiri-tree-borrows")
+        .env("CARGO_NET_OFFLINE", "true")
+        .output();
+    c.eval();
+    match out {
+        Err(_) => c.count("miri_unavailable"),
+        Ok(o) => {
+            let text = format!("{}{}", String::from_utf8_lossy(&o.stdout), String::from_utf8_lossy(&o.stderr));
+            if let Some(l) = text.lines().find(|l| l.starts_with("miri-smoke ok")) {
+                c.count("miri_runs_clean");
+                let ops: u64 = l.rsplit('=').next().and_then(|x| x.trim().parse().ok()).unwrap_or(0);
+                c.add("miri_api_operations", ops);
+            } else if text.contains("Undefined Behavior") {
+                let in_repo = text.lines().skip_while(|l| !l.contains("Undefined Behavior")).take(14).any(|l| l.contains("/repo/src/"));
+                if in_repo {
+                    c.violation("C05/miri-undefined-behaviour", "Miri reports undefined behaviour with a frame of /repo/src among the innermost frames", J::obj().set("miri_output_tail", J::s(text.lines().rev().take(40).collect::<Vec<_>>().into_iter().rev().collect::<Vec<_>>().join("\n"))));
+                } else {
+                    c.count("miri_report_outside_repo");
+                }
+            } else if text.contains("panicked") {
+                c.violation("C05/miri-panic", "the smoke workload panicked under Miri", J::obj().set("miri_output_tail", J::s(text.lines().rev().take(30).collect::<Vec<_>>().into_iter().rev().collect::<Vec<_>>().join("\n"))));
+            } else {
+                c.count("miri_unavailable");
+            }
+        }
+    }
+}
+
 fn run(c: &mut Case) {
     if c.idx < 4 {
         run_long_probe(c, c.idx);
+        return;
+    }
+    if c.tier == Tier::Thorough && c.idx < 8 {
+        run_miri_stage(c, c.idx);
         return;
     }
     let inp = gen_input(&mut c.rng, c.tier, &Mix::ALL);
@@ -421,4 +462,69 @@ pub fn deep_probe_body(which: u64, n: usize) -> usize {
         std::mem::forget(t);
     }
     n_ok
+}
+
+/// Workload for the Miri stage (no threads, no child processes, no file system): write -> read round trips, hostile
+/// parses with try_recover, vint/payload tools, and the async next() loop on a single-threaded executor.
+pub fn miri_smoke(n: u64, seed: u64) -> i32 {
+    use crate::io::ScriptedWrite;
+    use ebml_iterable::tools::{self, SignedVint, Vint};
+    let mut ops = 0u64;
+    for i in 0..n {
+        let mut rng = Rng::new(mix(seed, i));
+        let spec = crate::gen::pick_spec(&mut rng, &crate::gen::SpecBounds::FULL);
+        spec.install();
+        let tb = crate::gen::TreeBounds { max_elems: 10, max_depth: 4, big_payloads: false, globals: true };
+        let mut tree = crate::gen::gen_tree(&mut rng, &spec, &tb);
+        crate::gen::assign_opts(&mut rng, &spec, &mut tree, 15, 20);
+        let calls = crate::wr::calls_from_tree(&tree, &mut |_| false, false);
+        let run = crate::wr::run_calls(&calls, ScriptedWrite::new().with_limits(vec![3, 1]));
+        ops += calls.len() as u64;
+        // strict read back with short reads
+        let masters = spec.masters();
+        let cfg = RCfg { allow: (i % 8) as u8, buffered: if i % 2 == 0 { vec![] } else { masters.iter().take(2).copied().collect() }, capacity: Some(16 + (i as usize % 40)), max_size: MaxSz::Set(Some(4096)), eof_end: true };
+        let src = ScriptedRead::new(run.bytes.clone()).with_chunks(vec![], 1 + (i as usize % 7)).with_poison(crate::io::Poison::Byte(0xFF));
+        let (p, _, _) = crate::rd::parse_scripted(src, &cfg);
+        ops += p.items.len() as u64 + 1;
+        // mutated parse with recovery
+        let (mb, _) = crate::mutate::mutate(&mut rng, &spec, &run.bytes, &[], 2);
+        let mut it = make_iter(ScriptedRead::new(mb.clone()), &cfg);
+        for _ in 0..(mb.len() + 8).min(60) {
+            it.get_mut().begin_api_call();
+            match it.next() {
+                None => break,
+                Some(Ok(_)) => {}
+                Some(Err(_)) => {
+                    let _ = it.try_recover();
+                }
+            }
+            ops += 1;
+        }
+        // tools
+        let v = rng.next_u64() >> (8 + rng.below(50));
+        if let Ok(b) = v.as_vint() {
+            assert_eq!(tools::read_vint(&b).unwrap(), Some((v, b.len())));
+        }
+        let sv = (rng.next_u64() as i64) >> (9 + rng.below(50));
+        if let Ok(b) = sv.as_signed_vint() {
+            assert_eq!(tools::read_signed_vint(&b).unwrap(), Some((sv, b.len())));
+        }
+        let sl = rng.bytes(rng.clone().urange(0, 10));
+        let _ = (tools::arr_to_u64(&sl), tools::arr_to_i64(&sl), tools::arr_to_f64(&sl), tools::is_vint(v));
+        ops += 6;
+        // async next() loop (the Stream adapter is excluded: Miri reports UB inside futures_util::stream::Unfold there)
+        let tags: Vec<crate::spec::DynTag> = vec![];
+        let asrc = crate::io::ScriptedAsyncRead::new(ScriptedRead::new(run.bytes.clone()), 3);
+        let mut ait: ebml_iterable::nonblocking::TagIteratorAsync<crate::io::ScriptedAsyncRead, crate::spec::DynTag> = ebml_iterable::nonblocking::TagIteratorAsync::new(asrc, &tags);
+        futures::executor::block_on(async {
+            while let Some(r) = ait.next().await {
+                ops += 1;
+                if r.is_err() {
+                    break;
+                }
+            }
+        });
+    }
+    println!("miri-smoke ok rounds={} api_operations={}", n, ops);
+    0
 }
